@@ -52,7 +52,15 @@ def polyline_pairs(draw, maxseg=4):
         B["P"] = [[x + 40, y] for x, y in B["P"]]
     num = draw(st.sampled_from(["float", "npfloat"]))
     A["num"] = B["num"] = num
-    return {"A": A, "B": B, "elevate": draw(st.sampled_from([0, 0, 0, 1]))}
+    # numeric regimes: the size of the geometry and the speed of each parametrisation (powers of two / ten that
+    # keep the data exactly representable); the smallest geometry is not combined with the shortest intervals
+    g = draw(st.sampled_from([F(1), F(1), F(1), F(1, 64), F(1, 8), F(128)]))
+    pa = draw(st.sampled_from([F(1), F(1), F(64), F(1, 64) if g >= F(1, 8) else F(1)]))
+    pb = draw(st.sampled_from([F(1), F(1), F(64), F(1, 64) if g >= F(1, 8) else F(1)]))
+    for C, ps in ((A, pa), (B, pb)):
+        C["P"] = [[x * g, y * g] for x, y in C["P"]]
+        C["U"] = [u * ps for u in C["U"]]
+    return {"A": A, "B": B, "elevate": draw(st.sampled_from([0, 0, 0, 1])), "gscale": g, "pscale": (pa, pb)}
 
 
 def boxes_overlap(PA, PB):
@@ -113,6 +121,8 @@ def check_polylines(case, out):
         A = lib.Curve([float(u) for u in ea.U], np.array([[float(x) for x in pt] for pt in ea.P]))
         B = lib.Curve([float(u) for u in eb.U], np.array([[float(x) for x in pt] for pt in eb.P]))
         a, b = lib.state_of(A), lib.state_of(B)
+    g = case.get("gscale", F(1))
+    out.cls("geometry-scale=" + str(g), "param-scales=" + str(tuple(str(x) for x in case.get("pscale", (1, 1)))))
     exact = []
     degenerate = False
     mind2 = None
@@ -131,7 +141,7 @@ def check_polylines(case, out):
                 degenerate = True
             else:
                 mind2 = data if mind2 is None else min(mind2, data)
-                if data < F(1, 10000):
+                if data < F(1, 10000) * g * g:
                     degenerate = True
     overlap = boxes_overlap(a.P, b.P)
     if degenerate:
@@ -160,9 +170,10 @@ def check_polylines(case, out):
         if len(got) != 0 or pairs != ():
             out.fail("disjoint-not-empty", klass, f"curves do not meet (distance {math.sqrt(float(mind2)) if mind2 else '?'}) but returned {pairs} {desc}")
         return
-    tol = F(1, 10 ** 9)
-    missing = [e for e in exact if not any(abs(e[0] - g[0]) <= tol and abs(e[1] - g[1]) <= tol for g in got)]
-    extra = [g for g in got if not any(abs(e[0] - g[0]) <= tol and abs(e[1] - g[1]) <= tol for e in exact)]
+    tola = F(1, 10 ** 9) * max(F(1), a.U[-1] - a.U[0])
+    tolb = F(1, 10 ** 9) * max(F(1), b.U[-1] - b.U[0])
+    missing = [e for e in exact if not any(abs(e[0] - h[0]) <= tola and abs(e[1] - h[1]) <= tolb for h in got)]
+    extra = [h for h in got if not any(abs(e[0] - h[0]) <= tola and abs(e[1] - h[1]) <= tolb for e in exact)]
     if missing:
         out.fail("crossing-missed", klass,
                  f"exact crossings {[tuple(map(float, e)) for e in exact]}, returned {[tuple(map(float, g)) for g in got]} {desc}")
